@@ -231,6 +231,25 @@ def stream_family(rng=None):
     return out
 
 
+def observe_blockwise_family(rng=None):
+    """An observation is live under a caller-chosen token; a request for another resource is issued with the same token value (the
+    request table and the observation table are separate: it is accepted) or with a different one, and its response is transferred
+    block-wise by a state-less server that answers the request for every block by that request's Uri-Path.  The caller must get the
+    representation of the resource it asked for; notifications keep reaching the observation."""
+    out = []
+    a, b = ("aa", "bb") if rng is None else (rand_token(rng), rand_token(rng))
+    if a == b:
+        return out
+    out += [
+        "scn udp 1 obs:1:%s onote:%s:@1:1:st1 do:2:%s:non blkp:%s:40001:content-of-the-big-resource settle" % (a, a, a, a),
+        "scn udp 1 obs:1:%s onote:%s:@1:1:st1 do:2:%s:con blkp:%s:40001:content-of-the-big-resource onote:%s:40003:2:st2 settle" % (a, a, a, a, a),
+        "scn udp 1 obs:1:%s onote:%s:@1:1:st1 onote:%s:40001:2:st2 do:2:%s:con blkp:%s:40002:the-big-resource-for-b onote:%s:40004:3:st3 settle" % (a, a, a, b, b, a),
+        "scn udp 1 obs:1:%s onote:%s:@1:1:st1 do:2:%s:non do:3:%s:non blkp:%s:40001:big-one-under-the-shared-token blkp:%s:40003:big-two-under-another-token settle" % (a, a, a, b, a, b),
+        "scn udp 1 do:1:%s:non blkp:%s:40001:no-observation-at-all-here obs:2:%s onote:%s:@2:1:st1 do:3:%s:non blkp:%s:40003:and-now-with-one settle" % (a, a, a, a, a, a),
+    ]
+    return out
+
+
 def gen_scenario(rng, racy=False, collide=False, siblings=False):
     tr = rng.choice(["udp", "udp", "tcp"])
     bw = rng.choice([0, 0, 1])
@@ -457,7 +476,9 @@ def gen_lines(ctx):
     for _ in range(3000 if thorough else 400):
         L.append(gen_reuse(rng))
     # stream transport: a CSM between two blocks; long pipelined answers
-    L += stream_family()
+    L += stream_family() + observe_blockwise_family()
+    for _ in range(20 if thorough else 2):
+        L += observe_blockwise_family(rng)
     for _ in range(40 if thorough else 4):
         L += stream_family(rng)
     # early release + delayed ACK of separate confirmable responses, a few dozen rounds per connection
